@@ -127,7 +127,9 @@ class C12(Prop):
     def evaluate(self, case):
         out = Outcome()
         ddl = self.text(case)
-        generated = case["src"] == "gen"
+        # primary_key must name declared columns - asserted where the model spells key columns exactly as declared (not for the
+        # corpus and not for 're-spelled' tables, whose clauses may name another identifier than the column)
+        generated = case["src"] == "gen" and not any(b["k"] == "rtable" for b in case["blocks"])
         out.label("src:" + case["src"])
         rich = generated and any(b["k"] in ("ctable", "alter", "dtable", "xtable") for b in case["blocks"])
         for cfg in case["configs"]:
@@ -135,7 +137,7 @@ class C12(Prop):
             out.parses += 1
             out.label("mode:" + cfg["output_mode"])
             if r[0] != "ok":
-                if generated:
+                if case["src"] == "gen":
                     out.fail("exception", "%s: %s under %r; %r" % (r[1], r[2], cfg, ddl))
                 continue
             res = r[1]
